@@ -10,6 +10,7 @@ import Mastverif.Model.Backends
 import Mastverif.Model.Flush
 import Mastverif.Model.Heap
 import Std.Data.HashMap
+import Mastverif.Model.PtrDriver
 /-!
 # Line-protocol driver for the executable models (compiled as `mastmodel`)
 
@@ -36,6 +37,8 @@ structure St where
   cursors : Std.HashMap Nat Path := {}
   kv : Std.HashMap String KV.Store := {}
   heap : Heap.Heap := []
+  /-- the object-level model (`pmode`) -/
+  p : PSt := {}
 
 def hexDigit (n : Nat) : Char := if n < 10 then Char.ofNat (48 + n) else Char.ofNat (87 + n)
 def hex (b : Bytes) : String :=
@@ -485,10 +488,24 @@ partial def step (s : St) (line : String) : St × String :=
 partial def loop (inp : IO.FS.Stream) (out : IO.FS.Stream) (s : St) : IO Unit := do
   let line ← inp.getLine
   if line.isEmpty then return ()
-  let (s', resp) := step s line
-  out.putStrLn resp
-  out.flush
-  loop inp out s'
+  let toks := (line.trimAscii.toString.splitOn " ").filter (· ≠ "")
+  -- `pnew <slot> <cache>`: switch the object-level model on (once per case), then `new <slot>`
+  let (s, line, toks) :=
+    match toks with
+    | ["pnew", slot, c] =>
+      ((if s.p.on then s else { s with p := { on := true, ps := { useCache := c == "1" } } }),
+       "new " ++ slot, ["new", slot])
+    | _ => (s, line, toks)
+  match pcommand s.p toks with
+  | some (p', resp) =>
+    out.putStrLn resp
+    out.flush
+    loop inp out { s with p := p' }
+  | none =>
+    let (s', resp) := step s line
+    out.putStrLn resp
+    out.flush
+    loop inp out { s' with p := pmirror s'.enc s'.layer s'.cfg.bf s'.p toks }
 
 def main : IO Unit := do
   loop (← IO.getStdin) (← IO.getStdout) {}
